@@ -137,7 +137,12 @@ func execC10(r *simkit.Run) {
 				ec += int64(bitsCount(e.Bits))
 			}
 		}
-		used := vols - remote + (ec+9)/10
+		// slots taken by EC shards as the system itself publishes them (Disk.FreeSpace, shown on the
+		// master's status page): one slot per ten shards plus one
+		used := vols - remote
+		if ec > 0 {
+			used += ec/10 + 1
+		}
 		return int64(s.reg.max[disk]) - used
 	}
 	for i := range p.Steps {
